@@ -27,8 +27,9 @@ def rect(r1, c1, r2, c2):
 def finish_script(replay, rng, reload=None):
     """A TLC behaviour -> a driver script: choose the entry point of insert/remove (workbook level by sheet name or
     sheet level) and whether the initial sheet goes through a save/reload first (then the store is filled by the
-    reader through Cells::add).  A reloaded sheet cannot hold blank cells (C10-KF1): they get a value instead,
-    which keeps the history inside its contract (no contract depends on cell content)."""
+    reader through Cells::add).  Content-free cells need not survive a save (the writer may drop them): in a
+    reloaded initial sheet they get a value instead, which keeps the history inside its contract (no contract
+    depends on cell content)."""
     steps = []
     for st in replay:
         st = dict(st)
@@ -47,8 +48,9 @@ def finish_script(replay, rng, reload=None):
     return {"steps": steps}
 
 
-def kf_exemplars():
-    """Always run: the shortest histories that show each open finding."""
+def blank_cell_cases():
+    """Always run: content-free cells (no value, no style) next to cells with content - the writer may drop the
+    former but must write the latter."""
     e = {"a": "Init", "cells": [], "rows": [], "cols": [], "reload": False}
     return [
         {"steps": [dict(e), {"a": "GetCellMut", "r": 2, "c": 2}, {"a": "SetCell", "r": 1, "c": 1, "v": "x", "s": ""},
@@ -164,7 +166,7 @@ def limit_cases(rng, count):
 def gen_cases(chk):
     rng = chk.rng
     quick = chk.tier == "quick"
-    cases = kf_exemplars()
+    cases = blank_cell_cases()
     r = vlib.run_tlc("MC_CellStore", "MC_CellStore_replay.cfg", workers=4, coverage=False)
     if not r.ok or not r.replays:
         raise vlib.ToolError("replay generation (depth 1) failed: " + (r.violation or r.out[-500:]))
@@ -180,7 +182,7 @@ def gen_cases(chk):
         for rp in r2.replays:
             cases.append(finish_script(rp, rng))
     n1b = len(cases)
-    nsim = 300 if quick else 4000
+    nsim = 300 if quick else 3000
     rs = vlib.run_tlc("MC_CellStore", "MC_CellStore_sim.cfg", workers=1, coverage=False, simulate=f"num={nsim}",
                       extra=["-depth", "70", "-seed", str(chk.seed)], timeout=5000)
     if rs.rc != 0 or rs.violation or not rs.replays:
@@ -261,8 +263,9 @@ def judge(chk, cases, batch=1200):
 def run(chk):
     w = 4 if chk.tier == "quick" else 8
     vlib.tlc_mc("MC_CellStore", "MC_CellStore.cfg", workers=w, must_take=ACTIONS, check=chk)
-    vlib.tlc_mc("MC_CellStore", "MC_CellStore_d3.cfg", workers=w, must_take=ACTIONS, check=chk)
-    if chk.tier == "thorough":
+    if chk.tier == "quick":
+        vlib.tlc_mc("MC_CellStore", "MC_CellStore_d3.cfg", workers=w, must_take=ACTIONS, check=chk)
+    else:                                  # depth 3 with the full pools, depth 4 with the lean pools
         vlib.tlc_mc("MC_CellStore", "MC_CellStore_d3full.cfg", workers=w, timeout=7200, heap="12g", must_take=ACTIONS, check=chk)
         vlib.tlc_mc("MC_CellStore", "MC_CellStore_d4.cfg", workers=w, timeout=7200, heap="12g", must_take=ACTIONS, check=chk)
     cases = gen_cases(chk)
